@@ -244,7 +244,7 @@ func refPolicy(pub any, optIn bool) (ok bool, class string) {
 var kindWeights = []struct {
 	kind string
 	w    int
-}{{"p256", 7}, {"rsa2048", 5}, {"p384", 3}, {"p521", 2}, {"p224", 2}, {"rsa1024", 3}, {"rsa3072", 2}, {"dsa1024", 3}, {"dsa2048", 2}, {"ed25519", 2}, {"rsa2050", 2}, {"rsa2052", 1}, {"rsa2062", 1}, {"rsa1030", 1}, {"bp256t1", 1}}
+}{{"p256", 7}, {"rsa2048", 5}, {"p384", 3}, {"p521", 2}, {"p224", 2}, {"rsa1024", 3}, {"rsa3072", 2}, {"dsa1024", 3}, {"dsa2048", 2}, {"ed25519", 2}, {"rsa2050", 2}, {"rsa2052", 1}, {"rsa2062", 1}, {"rsa1030", 1}, {"bp256t1", 1}, {"dsa2048n224", 2}}
 
 var allKinds = func() []string {
 	var out []string
